@@ -4450,7 +4450,7 @@ impl<'a> Parser<'a> {
         }
 
         // Parse return type
-        let return_type = Box::new(self.parse_type_annotation()?);
+        let return_type = self.parse_return_type()?;
 
         Ok(Some(TypeAnnotation::Function(FunctionType {
             params,
@@ -4817,50 +4817,51 @@ impl<'a> Parser<'a> {
 
     fn parse_optional_return_type(&mut self) -> Result<Option<Box<TypeAnnotation>>, JsError> {
         if self.match_token(&TokenKind::Colon) {
-            // Check for assertion predicate: asserts param or asserts param is Type
-            if self.check(&TokenKind::Asserts) {
-                let start = self.current.span;
-                self.advance(); // consume 'asserts'
-                let param_name = self.parse_identifier()?;
-
-                // Check for optional 'is Type'
-                let type_annotation = if self.match_token(&TokenKind::Is) {
-                    Some(Box::new(self.parse_type_annotation()?))
-                } else {
-                    None
-                };
-
-                return Ok(Some(Box::new(TypeAnnotation::TypePredicate(
-                    TypePredicateType {
-                        parameter_name: param_name,
-                        type_annotation,
-                        asserts: true,
-                        span: self.span_from(start),
-                    },
-                ))));
-            }
-
-            // Check for type predicate: param is Type
-            // This is an identifier followed by 'is' keyword
-            if self.check_identifier() && self.peek_is(&TokenKind::Is) {
-                let start = self.current.span;
-                let param_name = self.parse_identifier()?;
-                self.require_token(&TokenKind::Is)?;
-                let type_annotation = Box::new(self.parse_type_annotation()?);
-                Ok(Some(Box::new(TypeAnnotation::TypePredicate(
-                    TypePredicateType {
-                        parameter_name: param_name,
-                        type_annotation: Some(type_annotation),
-                        asserts: false,
-                        span: self.span_from(start),
-                    },
-                ))))
-            } else {
-                Ok(Some(Box::new(self.parse_type_annotation()?)))
-            }
+            Ok(Some(self.parse_return_type()?))
         } else {
             Ok(None)
         }
+    }
+
+    /// Parse what follows the `:` of a signature or the `=>` of a function type: a type, or a
+    /// type predicate (`x is T`, `this is T`, `asserts x`, `asserts x is T`)
+    fn parse_return_type(&mut self) -> Result<Box<TypeAnnotation>, JsError> {
+        let start = self.current.span;
+
+        // Assertion predicate: asserts param or asserts param is Type
+        // (`asserts` followed by anything but a name is a type called `asserts`)
+        let asserts = self.check(&TokenKind::Asserts)
+            && (self.peek_is_identifier() || self.peek_is(&TokenKind::This));
+        if asserts {
+            self.advance(); // consume 'asserts'
+        }
+
+        // Type predicate: param is Type. This is an identifier or `this` followed by 'is'
+        let has_subject = (self.check_identifier() || self.check(&TokenKind::This))
+            && self.peek_is(&TokenKind::Is);
+        if !asserts && !has_subject {
+            return Ok(Box::new(self.parse_type_annotation()?));
+        }
+
+        let parameter_name = if self.check(&TokenKind::This) {
+            let name = self.intern("this");
+            let span = self.current.span;
+            self.advance();
+            Identifier { name, span }
+        } else {
+            self.parse_identifier()?
+        };
+        let type_annotation = if self.match_token(&TokenKind::Is) {
+            Some(Box::new(self.parse_type_annotation()?))
+        } else {
+            None
+        };
+        Ok(Box::new(TypeAnnotation::TypePredicate(TypePredicateType {
+            parameter_name,
+            type_annotation,
+            asserts,
+            span: self.span_from(start),
+        })))
     }
 
     // ============ HELPERS ============
